@@ -31,6 +31,8 @@ type stream struct {
 	// another returns one more in-range value of the structure (a freshly built repository value) and
 	// its reference encoding: the earlier contents of a reused receiver / value object.
 	another func() (codec, []byte)
+	// sampleCuts: probe a sample of truncation lengths in both tiers (encodings of hundreds of KiB)
+	sampleCuts bool
 }
 
 // judgeLogAppendOnReuse: CryptoAgileLog.Unmarshal appends the events it reads to cel.Events, so a
@@ -311,6 +313,9 @@ func checkStream(q *x, s stream, val codec, want []byte) {
 	}
 	// 3. every truncation, through bytes.Buffer and bytes.Reader; a sample through the file
 	cuts := q.shorter(len(want))
+	if s.sampleCuts {
+		cuts = q.sampled(len(want))
+	}
 	if len(want) <= 1500 { // every length, both tiers: these encodings are small
 		cuts = cuts[:0]
 		for k := 0; k < len(want); k++ {
@@ -599,7 +604,7 @@ func canonOf(f func(d *tcgref.Dec, e *tcgref.Enc)) func(b []byte) ([]byte, bool,
 
 // ---- cases ----
 
-func caseCStr(q *x) {
+func mkCStr(q *x) (stream, codec, []byte) {
 	v := rstr(q, 254)
 	e := &tcgref.Enc{}
 	e.CStr(v)
@@ -615,7 +620,12 @@ func caseCStr(q *x) {
 			oe.CStr(o)
 			return &eventlog.ByteSizedCStr{Data: o}, oe.B
 		}}
-	checkStream(q, s, &eventlog.ByteSizedCStr{Data: v}, e.B)
+	return s, &eventlog.ByteSizedCStr{Data: v}, e.B
+}
+
+func caseCStr(q *x) {
+	s, val, want := mkCStr(q)
+	checkStream(q, s, val, want)
 	// out-of-range: a string whose size with terminator does not fit the UINT8 size
 	long := &eventlog.ByteSizedCStr{Data: string(bytes.Repeat([]byte{'a'}, 255+q.r.IntN(300)))}
 	var err error
@@ -628,15 +638,20 @@ func caseCStr(q *x) {
 	}
 }
 
-func caseArr32(q *x) {
-	v := rarr(q)
+func mkArr32(q *x) (stream, codec, []byte) { return mkArr32Of(q, rarr(q)) }
+
+// mkArr32Of describes a Uint32SizedArray holding v.
+func mkArr32Of(q *x, v []byte) (stream, codec, []byte) {
 	e := &tcgref.Enc{}
 	e.Arr32(v)
 	s := stream{name: "Uint32SizedArray", fresh: func() codec { return &eventlog.Uint32SizedArray{} },
 		canon: canonOf(func(d *tcgref.Dec, e *tcgref.Enc) { e.Arr32(d.Arr32()) }),
 		same: func(c codec) (bool, string) {
 			g := c.(*eventlog.Uint32SizedArray).Data
-			return bytes.Equal(g, v), fmt.Sprintf("%x decoded as %x", v, g)
+			if bytes.Equal(g, v) {
+				return true, ""
+			}
+			return false, fmt.Sprintf("%s decoded as %s", hx(v), hx(g))
 		},
 		another: func() (codec, []byte) {
 			o := rarr(q)
@@ -644,10 +659,15 @@ func caseArr32(q *x) {
 			oe.Arr32(o)
 			return &eventlog.Uint32SizedArray{Data: o}, oe.B
 		}}
-	checkStream(q, s, &eventlog.Uint32SizedArray{Data: v}, e.B)
+	return s, &eventlog.Uint32SizedArray{Data: v}, e.B
 }
 
-func caseEfiGUIDStream(q *x) {
+func caseArr32(q *x) {
+	s, val, want := mkArr32(q)
+	checkStream(q, s, val, want)
+}
+
+func mkEfiGUID(q *x) (stream, codec, []byte) {
 	g := rguid(q.r)
 	e := &tcgref.Enc{}
 	e.GUID(g)
@@ -663,10 +683,15 @@ func caseEfiGUIDStream(q *x) {
 			oe.GUID(o)
 			return &eventlog.EfiGUID{UUID: uuid.UUID(o)}, oe.B
 		}}
-	checkStream(q, s, &eventlog.EfiGUID{UUID: uuid.UUID(g)}, e.B)
+	return s, &eventlog.EfiGUID{UUID: uuid.UUID(g)}, e.B
 }
 
-func caseDigest(q *x) {
+func caseEfiGUIDStream(q *x) {
+	s, val, want := mkEfiGUID(q)
+	checkStream(q, s, val, want)
+}
+
+func mkDigest(q *x) (stream, codec, []byte, tcgref.Digest) {
 	v := randDigest(q)
 	e := &tcgref.Enc{}
 	e.Digest(v)
@@ -681,7 +706,12 @@ func caseDigest(q *x) {
 			oe.Digest(o)
 			return &eventlog.TaggedDigest{AlgID: o.Alg, Digest: o.Data}, oe.B
 		}}
-	checkStream(q, s, &eventlog.TaggedDigest{AlgID: v.Alg, Digest: v.Data}, e.B)
+	return s, &eventlog.TaggedDigest{AlgID: v.Alg, Digest: v.Data}, e.B, v
+}
+
+func caseDigest(q *x) {
+	s, val, want, v := mkDigest(q)
+	checkStream(q, s, val, want)
 	// out-of-range: digest length that is not the algorithm's, unknown algorithm
 	bad := []*eventlog.TaggedDigest{
 		{AlgID: v.Alg, Digest: v.Data[:len(v.Data)-1]},
@@ -701,7 +731,7 @@ func caseDigest(q *x) {
 	}
 }
 
-func caseDigests(q *x) {
+func mkDigests(q *x) (stream, codec, []byte) {
 	var v []tcgref.Digest
 	for k := q.r.IntN(5); k > 0; k-- {
 		v = append(v, randDigest(q))
@@ -724,11 +754,21 @@ func caseDigests(q *x) {
 			ro := repoDigests(o)
 			return &ro, oe.B
 		}}
-	checkStream(q, s, &rv, e.B)
+	return s, &rv, e.B
 }
 
-func caseEventData(q *x) {
+func caseDigests(q *x) {
+	s, val, want := mkDigests(q)
+	checkStream(q, s, val, want)
+}
+
+func mkEventData(q *x) (stream, codec, []byte) {
 	raw, ed := randEventData(q)
+	return mkEventDataOf(q, raw, ed)
+}
+
+// mkEventDataOf describes a TCGEventData whose raw payload is raw and whose repository value is ed.
+func mkEventDataOf(q *x, raw []byte, ed eventlog.TCGEventData) (stream, codec, []byte) {
 	e := &tcgref.Enc{}
 	e.Arr32(raw)
 	s := stream{name: "TCGEventData", padded: true, fresh: func() codec { return &eventlog.TCGEventData{} },
@@ -740,10 +780,15 @@ func caseEventData(q *x) {
 			oe.Arr32(oraw)
 			return &oed, oe.B
 		}}
-	checkStream(q, s, &ed, e.B)
+	return s, &ed, e.B
 }
 
-func casePCEvent(q *x) {
+func caseEventData(q *x) {
+	s, val, want := mkEventData(q)
+	checkStream(q, s, val, want)
+}
+
+func mkPCEvent(q *x) (stream, codec, []byte) {
 	v, rv := randPCEvent(q)
 	e := &tcgref.Enc{}
 	e.PCEvent(v)
@@ -760,7 +805,12 @@ func casePCEvent(q *x) {
 			oe.PCEvent(o)
 			return ro, oe.B
 		}}
-	checkStream(q, s, rv, e.B)
+	return s, rv, e.B
+}
+
+func casePCEvent(q *x) {
+	s, val, want := mkPCEvent(q)
+	checkStream(q, s, val, want)
 }
 
 func samePCEvent(g *eventlog.TCGPCClientPCREvent, v tcgref.PCEvent) (bool, string) {
@@ -783,8 +833,13 @@ func sameEvent2(g *eventlog.TCGPCREvent2, v tcgref.Event2) (bool, string) {
 	return sameEventData(&g.EventData, v.Data)
 }
 
-func caseEvent2(q *x) {
+func mkEvent2(q *x) (stream, codec, []byte) {
 	v, rv := randEvent2(q)
+	return mkEvent2Of(q, v, rv)
+}
+
+// mkEvent2Of describes the TCG_PCR_EVENT2 v / rv.
+func mkEvent2Of(q *x, v tcgref.Event2, rv *eventlog.TCGPCREvent2) (stream, codec, []byte) {
 	e := &tcgref.Enc{}
 	e.Event2(v)
 	s := stream{name: "TCGPCREvent2", padded: true, fresh: func() codec { return &eventlog.TCGPCREvent2{} },
@@ -800,7 +855,12 @@ func caseEvent2(q *x) {
 			oe.Event2(o)
 			return ro, oe.B
 		}}
-	checkStream(q, s, rv, e.B)
+	return s, rv, e.B
+}
+
+func caseEvent2(q *x) {
+	s, val, want := mkEvent2(q)
+	checkStream(q, s, val, want)
 }
 
 func randLog(q *x) (tcgref.Log, *eventlog.CryptoAgileLog) {
@@ -818,8 +878,13 @@ func randLog(q *x) (tcgref.Log, *eventlog.CryptoAgileLog) {
 	return l, rl
 }
 
-func caseLog(q *x) {
+func mkLog(q *x) (stream, codec, []byte) {
 	l, rl := randLog(q)
+	return mkLogOf(q, l, rl)
+}
+
+// mkLogOf describes the crypto-agile log l / rl.
+func mkLogOf(q *x, l tcgref.Log, rl *eventlog.CryptoAgileLog) (stream, codec, []byte) {
 	e := &tcgref.Enc{}
 	e.Log(l)
 	s := stream{name: "CryptoAgileLog", padded: true, toEOF: true, fresh: func() codec { return &eventlog.CryptoAgileLog{} },
@@ -852,9 +917,13 @@ func caseLog(q *x) {
 			oe.Log(o)
 			return ro, oe.B
 		}}
-	checkStream(q, s, rl, e.B)
+	return s, rl, e.B
+}
+
+func caseLog(q *x) {
+	s, rl, want := mkLog(q)
+	checkStream(q, s, rl, want)
 	// a partial record behind the last event is not the end of the log
-	want := e.B
 	var extra []byte
 	switch q.r.IntN(3) {
 	case 0:
